@@ -146,7 +146,9 @@ def hull3Oracle (input : List (V3 Float)) (hv : List (V3 Float)) (tris : List (N
     let m : Std.HashMap (Int × Nat) Nat := P.foldl (fun m p => let k := ((f p).num, (f p).den); m.insert k (m.getD k 0 + 1)) {}
     m.fold (fun acc _ v => max acc v) 0
   let lattice := max (countMax (·.x)) (max (countMax (·.y)) (countMax (·.z))) ≥ 16
-  let tag := if lattice then "[coplanar-lattice-cloud]" else ""
+  -- the same degeneracy in rotated position: a face plane of the returned mesh carries five or more distinct input points
+  let tag := if lattice then "[coplanar-lattice-cloud]" else
+    if !bad.isEmpty && hasCoplanarSubset P faces then "[coplanar-subset-cloud]" else ""
   match bad with
   | p :: _ => s!"fail input-point-outside-hull{tag} ({p.x},{p.y},{p.z})"
   | [] => "pass"
